@@ -172,6 +172,38 @@ entry(
     "DESIGN.md section 2, C15",
 )
 
+entry(
+    "C04",
+    "Hypothesis property-based testing against the Gaussian-weighted Parseval identity, QUADPACK Fourier-weight transforms and Richardson differences",
+    "All 17 classes x dim 1-3 x length scale, rescale and shape parameters: for 12 window widths a the integral of S(k) exp(-a k^2) over k must equal "
+    "(4 pi a)^(-d/2) times the integral of rho(r) exp(-r^2/4a) over r (smooth, absolutely convergent radial integrals with fixed Gauss-Legendre panels; also with "
+    "spectrum / covariance for the factor var); pointwise transforms in d = 1, 3 (QUADPACK sin/cos weights) and d = 2 (between zeros of J0 with Wynn "
+    "acceleration); spectral_rad_pdf = surface factor x |S| with unit mass; cdf' = pdf, cdf(ppf(u)) = u, ppf(cdf(r)) = r, monotonicity, dist_func / has_cdf / "
+    "has_ppf consistency; S >= 0 for analytic classes. Accuracy budgets are stated per class (analytic 1e-9 x conditioning, numerical Hankel 5e-2 of the window mass).",
+    "Trusted: model.correlation (C03), scipy QUADPACK, Gauss-Legendre / Gauss-Jacobi nodes; eight known accuracy findings are probed on every run.",
+    "DESIGN.md section 2, C04",
+)
+entry(
+    "C10",
+    "Hypothesis property-based testing: noise-free variograms of the same family are fitted from near the truth; an oracle reading the documented rules decides what must hold",
+    "All 17 classes x dim 1-3 (isotropic, directional via main axes, lat-lon great-circle lags with four geo_scale kinds) x selections (fitted / deselected / "
+    "fixed) x sill (None / False / value) x anis x weights x init_guess modes x method/loss x custom bounds: returned dict == model state, prescribed values "
+    "bit-identical, values inside open/closed bounds, |var + nugget - sill| <= 1e-12 sill, documented ValueErrors raised, cost(result) <= cost(start); recovery "
+    "of curve (1e-4 sill), r2 and parameters (1e-3) is demanded only where an oracle-side identifiability analysis (Jacobian singular values, kinks, bounds) says it must hold.",
+    "Trusted: scipy.optimize.curve_fit converges from a start within 30% of an identifiable truth; the oracle's own variogram evaluation (model functions, C03).",
+    "DESIGN.md section 2, C10",
+)
+entry(
+    "C17",
+    "Hypothesis property-based and history testing of exact periodicity along independently computed main axes, plus a mode-table grid invariant",
+    "dim 1-3, ten classes, anisotropy, rotation, scalar / short-list / full-list periods and even mode counts, off-grid points within +-3 periods: "
+    "f(x) == f(x + m L_i a_i) for m in {1,-1,2,-2,5} with a_i from oracles/geometry.py; every wave number is an integer multiple of 2 pi anis_i / L_i on the full "
+    "product grid {-n/2..n/2-1}; odd mode counts raise. Histories of period / mode_no setters, update() with all 39 argument combinations, in-place model "
+    "changes, re-assignment and seed changes: after every op the arrays are mutually consistent and periodicity holds for the current settings.",
+    "Trusted: oracles/geometry.py (C12); tolerance 1e-9 scale (1 + |k|max |x| 1e-6) with scale = max(sqrt(var), l2 norm of the amplitudes).",
+    "DESIGN.md section 2, C17",
+)
+
 
 def main():
     props = [json.loads(l) for l in open(os.path.join(VERIF, "properties.jsonl"))]
